@@ -479,6 +479,11 @@ func scenarios() []scenario {
 			[]op{other(encOp("o", "p0", "x0")), other(encOp("o", "p1", "x1")), other(encOp("o", "p2", "x2")), other(encOp("o", "p3", "x3")),
 				churnOp("p0", "x0"), churnOp("p1", "x1"), churnOp("p0", "x0"), churnOp("p1", "x1"), churnOp("p0", "x0")},
 			churnOp("p2", "x2"), churnOp("p3", "x3")})
+		// a shared IK cache under a session cache: cached sessions use the factory-wide cache (which the
+		// factory closes), they must not be left with private caches nobody releases
+		out = append(out, scenario{"sesscache-sharedik-" + sc, config{sk: "simple", ik: "simple", shared: true, sessCache: sc},
+			[]op{other(encOp("o", "p0", "x0")), other(encOp("o", "p1", "x1")), churnOp("p0", "x0"), churnOp("p1", "x1")},
+			churnOp("p0", "x0"), churnOp("p1", "")})
 		// a shared IK cache with per-session key caching switched off (the shared cache is real all the same)
 		// under a session cache: tearing down one evicted session must not close the cache the others use
 		out = append(out, scenario{"sesscache-sharedik-noikcache-" + sc, config{sk: "simple", ik: "none", shared: true, sessCache: sc},
